@@ -3,5 +3,6 @@ CONSTANTS
   MaxEvents = 3
   Shapes <- MC_ShapesQuick
   FullPermBins = 4
+  MaxCalls = 1
   Bug = "memory_order"
 INVARIANT ResultPerEvent
